@@ -12,6 +12,8 @@
 (*   hook  beartype's path hook is in sys.path_hooks                                *)
 (*   proj  for every header name (same order) the index of the configuration        *)
 (*         get_package_conf_or_none(name) returned (index 1 = None)                 *)
+(*   root  index of the configuration returned for a fresh name that no call mentions *)
+(*   nr    position in the log of the Reset that ends this history                  *)
 (* An event that the specification cannot explain does not stop the run: TSkip      *)
 (* (always possible, prints the position it gives up at) abandons the rest of the   *)
 (* history; TReset prints whether the history before it was matched completely.     *)
@@ -38,6 +40,7 @@ OutClass(out) == IF out = "ok" THEN "none" ELSE "BeartypeClawHookException"
 \* the real observation logged with event e equals the specification's next state
 Observed(e) ==
   /\ hook' = e.hook
+  /\ root' = ConfTab[e.root]
   /\ \A i \in DOMAIN NameTab : proj'[NameTab[i]] = ConfTab[e.proj[i]]
 
 TInit == Init /\ l = 2 /\ tid = 0 /\ okrun = TRUE
@@ -67,15 +70,12 @@ TCall ==
      /\ Observed(e)
   /\ l' = l + 1 /\ UNCHANGED <<tid, okrun>>
 
-\* position of the next Reset after position k (the log ends with one)
-NextReset(k) == CHOOSE j \in k..Len(Log) : Log[j].ev = "Reset" /\ \A i \in k..(j-1) : Log[i].ev # "Reset"
-
 \* give up this history at l (possible everywhere; the largest l printed for a history
 \* that was not matched completely is its first unexplained event)
 TSkip ==
   /\ l <= Len(Log) /\ Log[l].ev # "Reset" /\ okrun
   /\ PrintT(ToJson([at |-> l]))
-  /\ ResetAll /\ l' = NextReset(l) /\ UNCHANGED tid /\ okrun' = FALSE
+  /\ ResetAll /\ l' = Log[l].nr /\ UNCHANGED tid /\ okrun' = FALSE   \* nr: position of the next Reset
 
 TNext == TReset \/ TCall \/ TSkip
 TSpec == TInit /\ [][TNext]_tvars
